@@ -47,6 +47,7 @@ type replayCase struct {
 	P        int          `json:"p,omitempty"`
 	ViaFile  bool         `json:"via_file,omitempty"`
 	Damage   *damageCase  `json:"damage,omitempty"`
+	Cap      *capCase     `json:"capacity_case,omitempty"`
 	Result   *childResult `json:"result,omitempty"`
 	Stderr   string       `json:"stderr,omitempty"`
 }
@@ -74,12 +75,16 @@ func main() {
 	})
 	rep.SetRule("(a) scenario = cache contents {0, 1, hundreds..thousands of entries; 17 reply shapes incl. NXDOMAIN/NODATA/SERVFAIL/unknown types/9-60 KB answers; stored through Exec or injected with chosen age, message expiry and cache expiry (fresh, stale, expired, inconsistent)} x {lazy cache on/off} x {HTTP API, Close()+restart file}; one case = one question asked of the original and of the reloaded cache back-to-back; non-trivial = the original cache served it (fresh or stale) or it was an expired injected entry; " +
 		"(b) one case = one prefix length p < |D| of a real dump loaded into a fresh cache; thorough enumerates every p of every dump, quick takes the first/last 64, a stride, random ones and +-16 around every p at which the number of admitted entries changes; non-trivial = the prefix gets past the gzip header; " +
-		"(c) one case = one damaged input from 17 generator families (flips of real dumps in compressed and uncompressed form, splices, hand-made gzip headers/trailers, well-formed gzip+framing around hostile block lengths / random protobuf / hostile entries / garbage DNS messages / decompression bombs / 100-400-block streams of ~1 MiB blocks); non-trivial = the parser got past the gzip header; distinct = distinct inputs")
+		"(c) one case = one damaged input from 17 generator families (flips of real dumps in compressed and uncompressed form, splices, hand-made gzip headers/trailers, well-formed gzip+framing around hostile block lengths / random protobuf / hostile entries / garbage DNS messages / decompression bombs / 100-400-block streams of ~1 MiB blocks); non-trivial = the parser got past the gzip header; distinct = distinct inputs; " +
+		"(d) one case = one dump -> reload round trip of a cache whose arguments are a point of the configuration space {size unset, 0, negative, 1, 63..65, 127..129, 300, 512, 640, 1000, 1023, 1024, 1025, 1087, 1088, 1500, 2048, 5000} x {lazy_cache_ttl 0, 3600, 86400} x {dump_interval unset, 0, negative, 1, 600, 3600} spelled as YAML arguments (decoded like coremain does) or as a sequence quick-setup string, x an entry count at a boundary {dump block multiples, configured size -1/0/+1 and its round-up to a block, between configured size and real capacity, capacity -1/0/+1, above capacity} x fill {Exec, hand-written dump with block sizes 1..1000, both} x writer/loader path {HTTP API, Close()+start-up file, periodic dump loop} x {same, other configuration on reload}; quick draws one count per boundary group and configuration, thorough takes all; non-trivial = the source held at least one live entry and the reloaded cache was compared")
 	rep.Assume("independent reader: Go standard library compress/gzip + hand-written 8-byte framing and protobuf field walker (no mosdns code, no generated protobuf code)")
 	rep.Assume("cache keys are never computed by the harness: injected entries use keys read from the dump of a scratch cache that stored the same question")
 	rep.Assume("wall-clock reads are bracketed: an entry whose message/cache expiry (whole seconds in the dump) lies within +-1 s of the bracket of its two probes is not judged; TTLs are judged against the set of ages possible within the bracket")
 	rep.Assume("answers are compared record by record (header flags, question, owner/type/class/rdata text) - name compression of the served bytes is not compared; dump entries are compared after re-encoding the message without compression")
 	rep.Assume("'hang' = one load does not finish within 120 s (nominal < 2 s); 'allocates without bound' = heap in use grows by more than 256 MiB while loading an input of at most 64 KiB (sampled every 0.3 ms, at every read of the input and when the load returns), or the process runs out of an 8 GiB address space, or - for streams of 100-400 well-formed ~1 MiB blocks and for zero-length-block bombs, where a block-by-block loader needs about one block - the LIVE heap (after a forced collection at every <=1 KiB read of the input) grows by more than 24 MiB")
+
+	rep.Assume("(d) the number of entries a configuration can hold is never computed by the harness: the reference is the size gauge of a real cache with that configuration after the same questions were stored through Exec (same process, hence same shard hash seed); all entries of this phase live for at least 120 s")
+	rep.Assume("(d) when a dump is loaded into a cache that cannot hold all of it, the cache must end up holding as many of the dump's entries as it holds when they arrive through Exec; which of them is free")
 
 	var err error
 	tmpDir, err = os.MkdirTemp(os.Getenv("VERIF_TMP"), "c19-")
@@ -107,6 +112,10 @@ func main() {
 	if rep.Get("probe_A_stale") == 0 {
 		rep.Inconclusive("no stale (lazy) entry was observed in the original cache")
 	}
+
+	// ---- (d) the configuration space ----
+	runCapacityPhase()
+	poolsan.Sweep()
 
 	// ---- material for (b) and (c) ----
 	var truncDumps []*scenState
@@ -654,6 +663,13 @@ func runReplay() {
 			}
 			rep.Violation(key, "replayed damaged input killed the process: "+what, replayCase{Phase: "damage", Damage: c.Damage, Stderr: stderr})
 		})
+	case "capacity":
+		if c.Cap == nil {
+			fmt.Println("replay: no capacity case")
+			cleanup()
+			os.Exit(3)
+		}
+		runCapCases([]capCase{*c.Cap})
 	default:
 		fmt.Println("replay: unknown phase", c.Phase)
 		cleanup()
